@@ -285,6 +285,21 @@ class SymEval:
                 self_.generic_visit(n)
                 if isinstance(n.func, ast.Attribute) and n.func.attr == 'difference' and len(n.args) == 1:
                     return ast.BinOp(left=n.func.value, op=ast.Sub(), right=n.args[0])
+                # f(**{'a': 1, 'b': 2})  ==  f(**dict(a=1, b=2))  ==  f(a=1, b=2)
+                kws, kchanged = [], False
+                for k in n.keywords:
+                    v = k.value
+                    if k.arg is None and isinstance(v, ast.Dict) and all(isinstance(x, ast.Constant) and isinstance(x.value, str) for x in v.keys):
+                        kws.extend(ast.keyword(arg=x.value, value=y) for x, y in zip(v.keys, v.values))
+                        kchanged = True
+                    elif k.arg is None and isinstance(v, ast.Call) and isinstance(v.func, ast.Name) and v.func.id == 'dict' and not v.args \
+                            and all(kk.arg for kk in v.keywords):
+                        kws.extend(v.keywords)
+                        kchanged = True
+                    else:
+                        kws.append(k)
+                if kchanged:
+                    n = ast.Call(func=n.func, args=n.args, keywords=kws)
                 # f(*((a, b) + rest))  ==  f(a, b, *rest);   f(*(a, b))  ==  f(a, b);   f(**{})  ==  f()
                 args = []
                 changed = False
@@ -521,6 +536,10 @@ class SymEval:
             for q, acc in states:
                 fexpr = self.val(q, node.func)
                 call = ast.Call(func=fexpr, args=acc, keywords=[ast.keyword(arg=k.arg, value=self.val(q, k.value)) for k in node.keywords])
+                call = self.simplify(call)
+                if not isinstance(call, ast.Call):      # (x.difference(y) and the like are rewritten to operators)
+                    yield q, call
+                    continue
                 q = q.copy()
                 if self.name_calls and isinstance(fexpr, ast.Name) and fexpr.id in ('len', 'isinstance', 'callable') and not node.keywords:
                     # an observer of an unchanged value has the value it had: same symbol (so that tests of it agree)
